@@ -72,6 +72,8 @@ def inject_fault(rng, nodes, top_path):
     if p == top_path:
         calls = [c for c in calls if c != 'lstat' or True]
     call = rng.choice(calls)
+    if call in n:
+        return None     # one fault per (call, path): the interposer applies the first spec only
     cls = rng.choice(['other', 'other', 'notFound', 'typeChange'])
     if cls == 'typeChange':
         if call not in TYPECHANGE:
@@ -91,7 +93,8 @@ def inject_fault(rng, nodes, top_path):
 
 def one_case(ctx, cid, seed, mode):
     rng = random.Random(seed)
-    w = hist.World(ctx, cid, rng, max_groups=3, max_per_group=3, nitems=rng.choice([1, 1, 2, 3]))
+    force_overlap = cid % 8 == 3          # a steady share of cases with overlapping items, in both orders
+    w = hist.World(ctx, cid, rng, max_groups=3, max_per_group=3, nitems=rng.choice([2, 3]) if force_overlap else rng.choice([1, 1, 2, 3]))
     try:
         items = []
         faults = []
@@ -102,8 +105,14 @@ def one_case(ctx, cid, seed, mode):
             m = {'resolved': [c for c in real.split('/') if c], 'filter': None}
             kind = rng.choice(['tree'] * 8 + ['missing', 'file', 'overlap', 'fifo']) if mode == 'faults' else rng.choice(['tree'] * 6 + ['missing', 'overlap'])
             cfg_path = it
+            if force_overlap:
+                kind = 'tree' if i == 0 else 'overlap' if i == 1 else kind
             if kind == 'tree':
                 m['node'] = build_tree(rng, it)
+                if force_overlap and i == 0 and not any(c['node']['kind'] == 'dir' and not c.get('raw') and c.get('path_valid', True) for c in m['node']['children']):
+                    os.mkdir(os.path.join(it, 'ovl'))
+                    open(os.path.join(it, 'ovl', 'inner'), 'w').write('inner')
+                    m['node']['children'].append({'name': 'ovl', 'node': {'kind': 'dir', 'children': [{'name': 'inner', 'node': {'kind': 'file'}}]}})
                 if rng.random() < 0.3:
                     m['filter'] = rng.choice(['- skipme', '- **/skipme\n- *.txt', '+ dd/a\n- dd/*'])
             elif kind == 'missing':
@@ -124,6 +133,8 @@ def one_case(ctx, cid, seed, mode):
                 m['resolved'] = [c for c in os.path.realpath(cfg_path).split('/') if c]
                 m['node'] = {'kind': 'dir', 'children': []}   # never visited
                 m['no_faults'] = True
+                if cfg_path != w.items[0]:
+                    m['node_real'] = sub[0]['node']
             else:
                 m['node'] = build_tree(rng, it)
             # hooks: the before hook creates a file in the item, the after hook removes one
@@ -149,6 +160,18 @@ def one_case(ctx, cid, seed, mode):
                     after_cmd += '; exit 4'
             items.append(m)
             cfg_items.append({'path': cfg_path, 'filter': m['filter'], 'before': before_cmd, 'after': after_cmd})
+        # overlapping items in the other order: the inner one first, the enclosing one later
+        for j in range(1, len(items)):
+            if 'node_real' in items[j] and (rng.random() < 0.5 or (force_overlap and cid % 16 == 3)):
+                items[j]['node'], items[j]['no_faults'] = items[j].pop('node_real'), False
+                items[0]['no_faults'] = True
+                items[0], items[j] = items[j], items[0]
+                cfg_items[0], cfg_items[j] = cfg_items[j], cfg_items[0]
+                for idx in (0, j):
+                    for key in ('before', 'after'):
+                        if cfg_items[idx][key]:
+                            cfg_items[idx][key] = re.sub(r'echo (before|after)\d+', lambda mm: 'echo %s%d' % (mm.group(1), idx), cfg_items[idx][key])
+                break
         # faults
         nf = 0 if mode == 'hooks' else rng.choice([0, 1, 1, 1, 2])
         for _ in range(nf):
